@@ -127,11 +127,16 @@ def unit(args: dict) -> dict:
                 pre0 = r[len(prefix) - 1][0] if prefix else uninit_state(b)
                 for i, e in enumerate(still):
                     if len(prefix) + i >= len(r):
-                        out["errors"].append("batched replay ended early")
+                        # the batched run was cut short (a step diverged): the rest one by one
+                        moving = still[i:] + moving
                         break
                     post, log = r[len(prefix) + i]
                     pre = r[len(prefix) + i - 1][0] if len(prefix) + i > 0 else pre0
                     judge(e, b, prefix + [e.step], post, log, pre)
+                    if post["status"] != e.to["status"] or post["config"] != e.to["config"]:
+                        # the batch assumption (state unchanged) broke: the rest one by one
+                        moving = still[i + 1:] + moving
+                        break
             for e in moving:
                 steps = prefix + [e.step]
                 r = run(b, steps)
